@@ -368,7 +368,14 @@ def run_derive(tape):
       htf.PhaseOptions(name='base0_{tag}', timeout_s=7)(base0))
   p0 = htf.plug(holder=Holder)(p0)
   p1 = htf.diagnose(bodies.ScriptedPhaseDiagnoser(bodies.Ctx(None), {'name': 'dd', 'outs': [[]]}))(base1)
-  originals = {'p0': p0, 'p1': p1}
+
+  def base2(test, holder):
+    return None
+
+  # a placeholder plug and a plain (template-free) name: with_plugs() really substitutes here
+  p2 = htf.PhaseOptions(timeout_s=5)(htf.plug(holder=Holder)(base2))
+  originals = {'p0': p0, 'p1': p1, 'p2': p2}
+  originals['grp2'] = htf.PhaseGroup(main=[p2], teardown=[p2], name='grp2')
   originals['seq'] = htf.PhaseSequence(p0, p1, name='seq_{tag}')
   originals['grp'] = htf.PhaseGroup(setup=[p1], main=[p0], teardown=[p1], name='grp')
   originals['sub'] = htf.Subtest('sub_{tag}', p0, originals['grp'])
